@@ -335,7 +335,13 @@ func (rs *runState) release12(step int, op core.Op) {
 	x.env.Eff()
 	active := !cur.released && time.Now().Before(cur.expiry)
 	if _, spent := x.node.SpentBy(o); spent {
-		return // what a release of a spent output answers is not prescribed
+		// what a release of a spent output answers is not prescribed; a
+		// release that was accepted is a release all the same
+		if err == nil && !foreign {
+			cur.released = true
+			x.leases12[o] = cur
+		}
+		return
 	}
 	if foreign && active {
 		if err == nil {
@@ -473,7 +479,20 @@ func (x *world) checkC12w(label string) {
 			}
 			x.env.Count("probe.c12w-confirmed-spend-of-leased-output")
 		case spent:
-			// spent by an unconfirmed transaction: not prescribed here
+			// spent by an unconfirmed transaction: only a CONFIRMED spend
+			// removes a lease — an active one is still listed
+			if active {
+				lo, ok := listed[o]
+				if !ok {
+					x.fail("c12w:lease-lost:unconfirmed-spend:at="+labelClass(label), "%s: output %v is leased to %d until %v and spent by the unconfirmed %s only, but ListLeasedOutputs does not list it", label, o, l.id[0], l.expiry, short(spender))
+					return
+				}
+				if lo.LockID != l.id || !lo.Expiration.Equal(l.expiry) {
+					x.fail("c12w:lease-listed-wrong", "%s: output %v is listed as leased to %d until %v, taken by %d until %v", label, o, lo.LockID[0], lo.Expiration, l.id[0], l.expiry)
+					return
+				}
+				x.env.Count("probe.c12w-active-lease-with-unconfirmed-spend-checked")
+			}
 		case active:
 			lo, ok := listed[o]
 			if !ok {
